@@ -267,30 +267,42 @@ func newSchedReadException(w *World, la *lockAnalysis) *schedReadException {
 				continue
 			}
 		}
-		// (ii) only reachable through the completion handler called from this closure after the read
+		// (ii) only reachable from this closure, through calls that come after the read (the completion
+		// handler and the helpers it delegates to)
 		okS := true
-		for _, c1 := range callersOf(s) {
-			for _, c2 := range callersOf(c1) {
-				if c2 != e.closure {
+		frontier := []*ssa.Function{s}
+		visited := map[*ssa.Function]bool{s: true}
+		for depth := 0; len(frontier) > 0 && okS; depth++ {
+			var next []*ssa.Function
+			for _, f := range frontier {
+				cs := callersOf(f)
+				if len(cs) == 0 {
 					okS = false
-					e.reason = fmt.Sprintf("%s (stores sched) is reachable from %s via %s, not only from the scheduling goroutine", FuncName(s), FuncName(c2), FuncName(c1))
+					e.reason = "no callers resolved for " + FuncName(f)
+				}
+				for _, c := range cs {
+					if c == e.closure {
+						// the call in the closure must come after the load
+						allInstrs(e.closure, func(in ssa.Instruction) {
+							if cl, ok := in.(*ssa.Call); ok && cl.Call.StaticCallee() == f && !instrDominates(load, cl) {
+								okS = false
+								e.reason = fmt.Sprintf("call of %s is not after the sched read", FuncName(f))
+							}
+						})
+						continue
+					}
+					if depth >= 3 {
+						okS = false
+						e.reason = fmt.Sprintf("%s (stores sched) is reachable from %s via %s, not only from the scheduling goroutine", FuncName(s), FuncName(c), FuncName(f))
+						continue
+					}
+					if !visited[c] {
+						visited[c] = true
+						next = append(next, c)
+					}
 				}
 			}
-			// the call to c1 in the closure must come after the load
-			allInstrs(e.closure, func(in ssa.Instruction) {
-				if c, ok := in.(*ssa.Call); ok && c.Call.StaticCallee() == c1 && !instrDominates(load, c) {
-					okS = false
-					e.reason = fmt.Sprintf("call of %s is not after the sched read", FuncName(c1))
-				}
-			})
-			if len(callersOf(c1)) == 0 {
-				okS = false
-				e.reason = fmt.Sprintf("no callers resolved for %s", FuncName(c1))
-			}
-		}
-		if len(callersOf(s)) == 0 {
-			okS = false
-			e.reason = "no callers resolved for " + FuncName(s)
+			frontier = next
 		}
 		if !okS {
 			return e
